@@ -12,7 +12,7 @@ CONSTANTS
   Methods = {"GET"}
   TTLs = {1, 2}
   Outcomes = {"cacheable", "uncacheable", "error"}
-  LoadResults = {"ok", "notfound", "error", "cut_s", "cut_r", "cut_c", "badstatus"}
+  LoadResults = {"ok", "notfound", "error", "cut_s", "cut_r", "cut_c", "cut_m", "badstatus"}
   SaveResults = {TRUE, FALSE}
   Jumps = {1}
   MaxTicks = 4
